@@ -109,14 +109,42 @@ Qed.
 Definition Inv_index (s : state) : Prop :=
   IDS (s_nodes s) /\ KM_ok (s_nodes s) (s_keymap s) /\ BE_ok (s_nodes s) (s_byent s).
 
-(* operations of the transaction layer (runtime ownership is an input of the
-   environment: runtime registration itself is not modelled) *)
+(* operations of the transaction layer, plus the one input of the environment:
+   the roothash application suspending a runtime *)
 Definition tx_op (o : op) : bool :=
   match o with
   | TRegEntity _ _ _ _ | TDeregEntity _ | TRegNode _ _ _ _ | TEpoch _
-  | LSetRtOwner _ _ | LRemoveRtOwner _ _ => true
-  | LSetEntity _ | LSetNode _ | LRemoveNode _ => false
+  | TRegRuntime _ _ | LSuspendRt _ => true
+  | LSetEntity _ | LSetNode _ | LRemoveNode _ | LSetRtOwner _ _ | LRemoveRtOwner _ _ => false
   end.
+
+(* everything except the two runtime tables / except everything runtime related *)
+Definition core (s : state) :=
+  (s_ents s, s_nodes s, s_byent s, s_addr s, s_keymap s, s_rtown s, s_claims s, s_epoch s, s_rtclaims s, s_nthr s).
+Definition ncore (s : state) :=
+  (s_ents s, s_nodes s, s_byent s, s_addr s, s_keymap s, s_claims s, s_epoch s, s_nthr s).
+
+Lemma resume_one_core s r : core (resume_one s r) = core s.
+Proof. unfold resume_one. destruct (aget r (s_susp s)); reflexivity. Qed.
+Lemma resume_fold_core l : forall s, core (fold_left resume_one l s) = core s.
+Proof.
+  induction l as [|r l IH]; intros s; [reflexivity|]. cbn [fold_left]. rewrite IH. apply resume_one_core.
+Qed.
+Lemma rt_apply_ncore s rt : ncore (reg_runtime_apply s rt) = ncore s.
+Proof.
+  unfold reg_runtime_apply.
+  destruct (rt_acct rt); destruct (any_runtime s (r_id rt)) as [old|];
+    destruct (aget (r_id rt) (s_rts s)); destruct (aget (r_id rt) (s_susp s));
+    try destruct (r_ent old =? r_ent rt); reflexivity.
+Qed.
+Ltac use_core l s :=
+  let H := fresh "HC" in
+  pose proof (resume_fold_core l s) as H; unfold core in H;
+  injection H as ?HCents ?HCnodes ?HCbyent ?HCaddr ?HCkeymap ?HCrtown ?HCclaims ?HCepoch ?HCrtclaims ?HCnthr.
+Ltac use_ncore s rt :=
+  let H := fresh "HN" in
+  pose proof (rt_apply_ncore s rt) as H; unfold ncore in H;
+  injection H as ?HNents ?HNnodes ?HNbyent ?HNaddr ?HNkeymap ?HNclaims ?HNepoch ?HNnthr.
 
 Definition no_exchange (s : state) (o : op) : Prop :=
   match o with
@@ -127,13 +155,15 @@ Definition no_exchange (s : state) (o : op) : Prop :=
 Ltac if_ok H :=
   repeat match type of H with
          | (if ?c then _ else _) = COk =>
-             let E := fresh "E" in destruct c eqn:E; [discriminate H|]
+             let E := fresh "E" in
+             destruct c eqn:E;
+             [first [discriminate H | exfalso; rewrite H in E; cbn in E; discriminate E]|]
          end.
 
 Lemma has_dup_keys n :
   has_dup [n_cons n; n_p2p n; n_tls n; n_vrf n] = false -> has_dup (keys n) = false.
 Proof.
-  unfold keys. destruct n as [id ent c p v t e]; cbn [n_cons n_p2p n_vrf n_tls has_dup nmem].
+  unfold keys. destruct n as [id ent c p v t e ro rs]; cbn [n_cons n_p2p n_vrf n_tls has_dup nmem].
   intros H. eqb_split; try reflexivity; try discriminate; try congruence.
 Qed.
 
@@ -144,17 +174,18 @@ Lemma verify_args_ok maxexp s ent n signers ok :
   (forall k, In k (keys n) -> dup_subkey s n k = false) /\
   has_dup (keys n) = false /\
   is_only_signed_by signers [n_id n; n_cons n; n_vrf n; n_tls n; n_p2p n] = true /\
-  (0 <? maxexp) && (s_epoch s + maxexp <? n_exp n) = false.
+  (0 <? maxexp) && (s_epoch s + maxexp <? n_exp n) = false /\
+  code_is_ok (node_rts_check s n) = true.
 Proof.
   unfold verify_register_node_args. intros H. if_ok H.
-  apply negb_false_iff in E, E0, E1, E3, E4, E5, E6, E9.
-  apply orb_false_iff in E7 as [E7 Ev]. apply orb_false_iff in E7 as [E7 Et].
-  apply orb_false_iff in E7 as [Ec Ep].
+  apply negb_false_iff in E, E1, E2, E4, E5, E6, E7, E8, E11.
+  apply orb_false_iff in E9 as [E9 Ev]. apply orb_false_iff in E9 as [E9 Et].
+  apply orb_false_iff in E9 as [Ec Ep].
   repeat split; auto.
   - intros k Hk. unfold is_signed_by in *. cbn [In keys] in Hk.
     apply nmem_In. intuition (subst; assumption).
   - intros k Hk. cbn [In keys] in Hk. intuition (subst; assumption).
-  - apply has_dup_keys. exact E8.
+  - apply has_dup_keys. exact E10.
 Qed.
 
 Lemma reg_node_ok maxexp s txs n signers ok :
@@ -170,13 +201,37 @@ Proof.
   unfold reg_node_check. intros H.
   destruct (aget (n_ent n) (s_ents s)) as [ent|] eqn:Eent; [|discriminate].
   destruct (verify_register_node_args maxexp s ent n signers ok) eqn:EV; try discriminate.
-  apply verify_args_ok in EV as (Hok & Hmem & Hs & Hd & Hdup & _ & _).
-  if_ok H. apply negb_false_iff in E. apply N.eqb_eq in E. apply N.leb_gt in E0.
+  apply verify_args_ok in EV as (Hok & Hmem & Hs & Hd & Hdup & _ & _ & _).
+  if_ok H. apply negb_false_iff in E. apply N.eqb_eq in E. apply N.leb_gt in E1.
   repeat split; eauto.
   - rewrite H0 in H. unfold verify_node_update in H. if_ok H.
-    apply negb_false_iff in E2. apply N.eqb_eq in E2. exact E2.
-  - rewrite H0 in H. unfold verify_node_update in H. if_ok H.
     apply negb_false_iff in E3. apply N.eqb_eq in E3. exact E3.
+  - rewrite H0 in H. unfold verify_node_update in H. if_ok H.
+    apply negb_false_iff in E4. apply N.eqb_eq in E4. exact E4.
+Qed.
+
+(* the runtime-related conditions of an accepted node registration *)
+Lemma reg_node_ok_rts maxexp s txs n signers ok :
+  reg_node_check maxexp s txs n signers ok = COk ->
+  node_rts_check s n = COk /\ admission_check s n (n_rts n) = COk /\ n_roles n <> 0 /\
+  (forall cur, aget (n_id n) (s_nodes s) = Some cur -> s_epoch s <= n_exp cur ->
+               (forall r, In r (n_rts cur) -> In r (n_rts n)) /\ N.land (n_roles n) (n_roles cur) <> 0).
+Proof.
+  unfold reg_node_check. intros H.
+  destruct (aget (n_ent n) (s_ents s)) as [ent|] eqn:Eent; [|discriminate].
+  destruct (verify_register_node_args maxexp s ent n signers ok) eqn:EV; try discriminate.
+  assert (Hro : n_roles n <> 0).
+  { unfold verify_register_node_args in EV. if_ok EV. apply N.eqb_neq in E0. exact E0. }
+  apply verify_args_ok in EV as (_ & _ & _ & _ & _ & _ & _ & Hrts).
+  if_ok H. apply negb_false_iff in E0.
+  assert (Hc : forall c, code_is_ok c = true -> c = COk) by (intros c; destruct c; cbn; congruence).
+  split; [apply Hc; exact Hrts|]. split; [apply Hc; exact E0|]. split; [exact Hro|].
+  intros cur Hcur Hact. rewrite Hcur in H. unfold verify_node_update in H. if_ok H.
+  assert (Hexp : (n_exp cur <? s_epoch s) = false) by (apply N.ltb_ge; exact Hact).
+  rewrite Hexp in H. if_ok H.
+  apply negb_false_iff in E5, E6. split.
+  - intros r Hr. rewrite forallb_forall in E5. apply nmem_In. apply E5. exact Hr.
+  - unfold has_role in E6. apply negb_true_iff in E6. apply N.eqb_neq in E6. exact E6.
 Qed.
 
 Section Reg.
@@ -222,12 +277,18 @@ Section Reg.
   Proof. intros H. exact H. Qed.
   Lemma inv_with_epoch s e : Inv_index s -> Inv_index (with_epoch s e).
   Proof. intros H. exact H. Qed.
+  Lemma inv_with_nthr s t : Inv_index s -> Inv_index (with_nthr s t).
+  Proof. intros H. exact H. Qed.
+  Lemma inv_index_resume l s : Inv_index s -> Inv_index (fold_left resume_one l s).
+  Proof. intros H. use_core l s. unfold Inv_index. rewrite HCnodes, HCkeymap, HCbyent. exact H. Qed.
+  Lemma inv_index_rt_apply s rt : Inv_index s -> Inv_index (reg_runtime_apply s rt).
+  Proof. intros H. use_ncore s rt. unfold Inv_index. rewrite HNnodes, HNkeymap, HNbyent. exact H. Qed.
 
   Lemma epoch_one_inv e s id : Inv_index s -> Inv_index (epoch_one addr debond e s id).
   Proof.
     intros H. unfold epoch_one. destruct (aget id (s_nodes s)) as [n|] eqn:En; [|exact H].
     destruct ((n_exp n <? e) && (n_exp n + debond <? e)); [|exact H].
-    apply inv_with_claims. eapply remove_node_inv; eauto.
+    apply inv_with_nthr, inv_with_claims. eapply remove_node_inv; eauto.
   Qed.
 
   Lemma epoch_fold_inv e l : forall s, Inv_index s -> Inv_index (fold_left (epoch_one addr debond e) l s).
@@ -240,15 +301,16 @@ Section Reg.
     Inv_index (snd (step addr fixed maxexp debond s o)).
   Proof.
     intros Htx Hinv Hx. destruct o; try discriminate; cbn [step].
-    - exact Hinv.
-    - exact Hinv.
     - destruct (reg_entity_check txs e dsigner sig_ok); exact Hinv.
     - destruct (dereg_entity_check s txs); exact Hinv.
     - destruct (reg_node_check maxexp s txs n dsigners sig_ok) eqn:EC; try exact Hinv.
       apply reg_node_ok in EC as (_ & _ & _ & _ & Hd & Hdup & Hcur & _).
-      cbn [snd]. apply set_node_inv; auto.
+      cbn [snd]. apply inv_index_resume, inv_with_nthr. apply set_node_inv; auto.
       intros cur Hc. apply Hcur. exact Hc.
     - cbn [snd]. unfold epoch_change. apply epoch_fold_inv. exact Hinv.
+    - destruct (reg_runtime_check s caller rt); try exact Hinv.
+      cbn [snd]. apply inv_index_rt_apply. exact Hinv.
+    - destruct (aget r (s_rts s)); exact Hinv.
   Qed.
 
   Fixpoint no_exchange_run (ops : list op) (s : state) : Prop :=
@@ -321,8 +383,8 @@ Qed.
 (* ---------- the refutation witness: an update that exchanges P2P and TLS ---------- *)
 Definition wit_ops : list op :=
   [TRegEntity 1 (mkEnt 1 [4]) 1 true;
-   TRegNode 4 (mkNode 4 1 8 9 10 11 2) [4; 9; 8; 11; 10] true].
-Definition wit_op : op := TRegNode 4 (mkNode 4 1 8 11 10 9 2) [4; 11; 8; 9; 10] true.
+   TRegNode 4 (mkNode 4 1 8 9 10 11 2 8 []) [4; 9; 8; 11; 10] true].
+Definition wit_op : op := TRegNode 4 (mkNode 4 1 8 11 10 9 2 8 []) [4; 11; 8; 9; 10] true.
 
 Lemma Inv_index_refuted_l (addr : N -> N) :
   exists s o, Inv_index s /\ tx_op o = true /\
@@ -335,7 +397,7 @@ Proof.
     intros old H. vm_compute in H. discriminate.
   - vm_compute. reflexivity.
   - intros H.
-    pose proof (found_under_each_key _ 4 (mkNode 4 1 8 11 10 9 2) 11 H) as F.
+    pose proof (found_under_each_key _ 4 (mkNode 4 1 8 11 10 9 2 8 []) 11 H) as F.
     vm_compute in F. specialize (F eq_refl (or_intror (or_introl eq_refl))). discriminate.
 Qed.
 
@@ -343,16 +405,16 @@ Qed.
    of the hypotheses of the positive theorems *)
 Example exchange_ok_when_fixed (addr : N -> N) :
   Inv_index (run addr true 5 2 (wit_ops ++ [wit_op]) st0) /\
-  node_by_subkey (run addr true 5 2 (wit_ops ++ [wit_op]) st0) 11 = Some (mkNode 4 1 8 11 10 9 2).
+  node_by_subkey (run addr true 5 2 (wit_ops ++ [wit_op]) st0) 11 = Some (mkNode 4 1 8 11 10 9 2 8 []).
 Proof.
   split; [apply run_inv_fixed; [exact Inv_st0|reflexivity]|vm_compute; reflexivity].
 Qed.
 
 Example no_exchange_history_nonvacuous (addr : N -> N) :
-  let ops := wit_ops ++ [TRegNode 4 (mkNode 4 1 8 12 13 14 3) [4; 12; 8; 14; 13] true; TEpoch 6] in
+  let ops := wit_ops ++ [TRegNode 4 (mkNode 4 1 8 12 13 14 3 8 []) [4; 12; 8; 14; 13] true; TEpoch 6] in
   no_exchange_run addr 5 2 ops st0 /\ forallb tx_op ops = true /\
-  s_nodes (run addr false 5 2 (wit_ops ++ [TRegNode 4 (mkNode 4 1 8 12 13 14 3) [4; 12; 8; 14; 13] true]) st0)
-  = [(4, mkNode 4 1 8 12 13 14 3)].
+  s_nodes (run addr false 5 2 (wit_ops ++ [TRegNode 4 (mkNode 4 1 8 12 13 14 3 8 []) [4; 12; 8; 14; 13] true]) st0)
+  = [(4, mkNode 4 1 8 12 13 14 3 8 [])].
 Proof.
   cbn zeta. split; [|split; [reflexivity|vm_compute; reflexivity]].
   cbn [no_exchange_run app wit_ops no_exchange]. repeat split.
@@ -375,6 +437,8 @@ Section Auth.
     - destruct (reg_entity_check txs e dsigner sig_ok); injection H as <- <-; congruence.
     - destruct (dereg_entity_check s txs); injection H as <- <-; congruence.
     - destruct (reg_node_check maxexp s txs n dsigners sig_ok); injection H as <- <-; congruence.
+    - destruct (reg_runtime_check s caller rt); injection H as <- <-; congruence.
+    - destruct (aget r (s_rts s)); injection H as <- <-; congruence.
   Qed.
 
   Lemma missing_signature_rejected s txs n signers ok k :
@@ -428,7 +492,7 @@ Section Auth.
                                exists n, aget id (s_nodes s) = Some n /\ n_exp n + debond < e)).
     { unfold epoch_one. destruct (aget id0 (s_nodes s)) as [n|] eqn:En; [|split; [exact Hids|auto]].
       destruct ((n_exp n <? e) && (n_exp n + debond <? e)) eqn:Ec; [|split; [exact Hids|auto]].
-      cbn [s_nodes with_claims remove_node with_nodes with_byent with_addr with_keymap].
+      cbn [s_nodes with_nthr with_claims remove_node with_nodes with_byent with_addr with_keymap].
       split; [apply ids_del; exact Hids|]. intros id. rewrite aget_adel_gen.
       pose proof (Hids _ _ En) as Hid. rewrite Hid.
       destruct (N.eqb_spec id0 id) as [<-|Hne]; [|left; reflexivity].
@@ -448,8 +512,13 @@ Section Auth.
     - destruct (reg_entity_check txs e dsigner sig_ok); exact H.
     - destruct (dereg_entity_check s txs); exact H.
     - destruct (reg_node_check maxexp s txs n dsigners sig_ok); try exact H.
-      cbn [snd set_node s_nodes with_claims with_nodes with_byent with_addr with_keymap]. apply ids_set. exact H.
+      cbn [snd]. match goal with |- IDS (s_nodes (fold_left resume_one ?l ?s0)) => use_core l s0 end.
+      rewrite HCnodes.
+      cbn [set_node s_nodes with_nthr with_claims with_nodes with_byent with_addr with_keymap]. apply ids_set. exact H.
     - cbn [snd]. unfold epoch_change. apply epoch_fold_nodes. exact H.
+    - destruct (reg_runtime_check s caller rt); try exact H.
+      cbn [snd]. use_ncore s rt. rewrite HNnodes. exact H.
+    - destruct (aget r (s_rts s)); exact H.
   Qed.
 
   Lemma authority_node s o s' id :
@@ -465,13 +534,13 @@ Section Auth.
                     aget id (s_nodes s') = None /\ n_exp n + debond < e).
   Proof.
     intros Htx Hids H Hch. destruct o; try discriminate; cbn [step] in H.
-    - injection H as <-. exfalso. apply Hch. reflexivity.
-    - injection H as <-. exfalso. apply Hch. reflexivity.
     - destruct (reg_entity_check txs e dsigner sig_ok); try discriminate; injection H as <-; exfalso; apply Hch; reflexivity.
     - destruct (dereg_entity_check s txs); try discriminate; injection H as <-; exfalso; apply Hch; reflexivity.
     - destruct (reg_node_check maxexp s txs n dsigners sig_ok) eqn:EC; try discriminate.
       injection H as <-.
-      cbn [set_node s_nodes with_claims with_nodes with_byent with_addr with_keymap] in Hch |- *.
+      match goal with |- context [fold_left resume_one ?l ?s0] => use_core l s0 end.
+      rewrite HCnodes in Hch |- *.
+      cbn [set_node s_nodes with_nthr with_claims with_nodes with_byent with_addr with_keymap] in Hch |- *.
       rewrite aget_aset_gen in Hch |- *.
       destruct (N.eqb_spec (n_id n) id) as [E|Hne]; [|exfalso; apply Hch; reflexivity].
       apply reg_node_ok in EC as ((ent & He & Hm) & Hok & Ht & Hs & _ & _ & Hcur & _).
@@ -484,6 +553,9 @@ Section Auth.
       destruct (epoch_fold_nodes e (sorted_ids s) (with_epoch s e) Hids) as [_ Hn].
       destruct (Hn id) as [A|[A [n [B C]]]]; [exfalso; apply Hch; exact A|].
       right. exists e, n. auto.
+    - destruct (reg_runtime_check s caller rt); try discriminate. injection H as <-.
+      exfalso. apply Hch. use_ncore s rt. rewrite HNnodes. reflexivity.
+    - destruct (aget r (s_rts s)); try discriminate. injection H as <-. exfalso. apply Hch. reflexivity.
   Qed.
 
   Lemma authority_entity s o s' e :
@@ -494,8 +566,6 @@ Section Auth.
         aget e (s_ents s') = None).
   Proof.
     intros Htx H Hch. destruct o; try discriminate; cbn [step] in H.
-    - injection H as <-. exfalso. apply Hch. reflexivity.
-    - injection H as <-. exfalso. apply Hch. reflexivity.
     - destruct (reg_entity_check txs e0 dsigner sig_ok) eqn:EC; try discriminate.
       injection H as <-. cbn [s_ents with_ents with_claims] in Hch |- *.
       rewrite aget_aset_gen in Hch |- *.
@@ -509,8 +579,13 @@ Section Auth.
       destruct (N.eqb_spec txs e) as [E|Hne]; [|exfalso; apply Hch; reflexivity].
       unfold dereg_entity_check in EC. if_ok EC. subst. right. auto.
     - destruct (reg_node_check maxexp s txs n dsigners sig_ok); try discriminate.
-      injection H as <-. exfalso. apply Hch. reflexivity.
+      injection H as <-. exfalso. apply Hch.
+      match goal with |- context [fold_left resume_one ?l ?s0] => use_core l s0 end.
+      rewrite HCents. reflexivity.
     - injection H as <-. exfalso. apply Hch. unfold epoch_change. rewrite epoch_fold_ents. reflexivity.
+    - destruct (reg_runtime_check s caller rt); try discriminate. injection H as <-.
+      exfalso. apply Hch. use_ncore s rt. rewrite HNents. reflexivity.
+    - destruct (aget r (s_rts s)); try discriminate. injection H as <-. exfalso. apply Hch. reflexivity.
   Qed.
 
   (* ---------- an entity cannot be removed while it owns nodes or runtimes ---------- *)
@@ -640,7 +715,7 @@ Section RegAll.
     destruct ((n_exp n <? e) && (n_exp n + debond <? e)); [|exact H].
     destruct H as (Hids & Hbe & Hnc & Hec). pose proof (Hids _ _ En) as Hid.
     unfold Inv_reg, remove_node;
-      cbn [s_nodes s_byent s_claims s_ents with_nodes with_byent with_addr with_keymap with_claims].
+      cbn [s_nodes s_byent s_claims s_ents with_nodes with_byent with_addr with_keymap with_claims with_nthr].
     replace (adel (n_id n) (s_nodes s)) with (adel id (s_nodes s)) by (rewrite Hid; reflexivity).
     split; [|split; [|split]].
     - apply ids_del. exact Hids.
@@ -672,14 +747,18 @@ Section RegAll.
     - destruct (reg_node_check maxexp s txs n dsigners sig_ok) eqn:EC; try exact Hinv.
       apply reg_node_ok in EC as (_ & _ & _ & _ & _ & _ & Hcur & _).
       destruct Hinv as (Hids & Hbe & Hnc & Hec).
-      unfold Inv_reg, set_node;
-        cbn [snd s_nodes s_byent s_claims s_ents with_nodes with_byent with_addr with_keymap with_claims].
+      cbn [snd]. match goal with |- Inv_reg (fold_left resume_one ?l ?s0) => use_core l s0 end.
+      unfold Inv_reg. rewrite HCnodes, HCbyent, HCclaims, HCents. unfold set_node;
+        cbn [s_nodes s_byent s_claims s_ents with_nodes with_byent with_addr with_keymap with_claims with_nthr].
       split; [|split; [|split]].
       + apply ids_set. exact Hids.
       + apply (pf_set (fun x => x)); auto. intros old Ho. apply Hcur. exact Ho.
       + apply (pf_set (fun x => x + 1)); auto; [exact succ_inj|]. intros old Ho. apply Hcur. exact Ho.
       + apply ec_other_add; [lia|exact Hec].
     - cbn [snd]. unfold epoch_change. apply epoch_fold_reg. exact Hinv.
+    - destruct (reg_runtime_check s caller rt); try exact Hinv.
+      cbn [snd]. use_ncore s rt. unfold Inv_reg. rewrite HNnodes, HNbyent, HNclaims, HNents. exact Hinv.
+    - destruct (aget r (s_rts s)); exact Hinv.
   Qed.
 
   Lemma run_reg ops : forall s, Inv_reg s -> forallb tx_op ops = true ->
@@ -736,19 +815,23 @@ Section RegAll.
     n_ent n' = n_ent n.
   Proof.
     intros Htx Hids Hn Hn'. destruct o; try discriminate; cbn [step] in Hn'.
-    - cbn in Hn'. congruence.
-    - cbn in Hn'. congruence.
     - destruct (reg_entity_check txs e dsigner sig_ok); cbn in Hn'; congruence.
     - destruct (dereg_entity_check s txs); cbn in Hn'; congruence.
     - destruct (reg_node_check maxexp s txs n0 dsigners sig_ok) eqn:EC;
         try (cbn [snd] in Hn'; congruence).
-      cbn [snd set_node s_nodes with_claims with_nodes with_byent with_addr with_keymap] in Hn'.
+      cbn [snd] in Hn'.
+      match type of Hn' with context [fold_left resume_one ?l ?s0] => use_core l s0 end.
+      rewrite HCnodes in Hn'.
+      cbn [set_node s_nodes with_nthr with_claims with_nodes with_byent with_addr with_keymap] in Hn'.
       split_in Hn' (n_id n0) id; [|congruence].
       injection Hn' as <-. apply reg_node_ok in EC as (_ & _ & _ & _ & _ & _ & Hcur & _).
       symmetry. apply Hcur. rewrite E. exact Hn.
     - cbn [snd] in Hn'. unfold epoch_change in Hn'.
       destruct (epoch_fold_nodes addr debond e (sorted_ids s) (with_epoch s e) Hids) as [_ H].
       destruct (H id) as [A|[A _]]; rewrite A in Hn'; [cbn in Hn'; congruence|discriminate].
+    - destruct (reg_runtime_check s caller rt); cbn [snd] in Hn'; try congruence.
+      use_ncore s rt. rewrite HNnodes in Hn'. congruence.
+    - destruct (aget r (s_rts s)); cbn in Hn'; congruence.
   Qed.
 
   (* the record of [id] exists after every operation of the history *)
@@ -778,10 +861,10 @@ End RegAll.
    its own entity (accepted) and under another entity that lists it (rejected) *)
 Example reregistration_examples (addr : N -> N) :
   let pre := [TRegEntity 1 (mkEnt 1 [4]) 1 true; TRegEntity 2 (mkEnt 2 [4]) 2 true;
-              TRegNode 4 (mkNode 4 1 8 9 10 11 2) [4; 9; 8; 11; 10] true; TEpoch 3] in
-  fst (step addr true 5 2 (run addr true 5 2 pre st0) (TRegNode 4 (mkNode 4 1 8 9 10 11 7) [4; 9; 8; 11; 10] true)) = COk /\
-  fst (step addr true 5 2 (run addr true 5 2 pre st0) (TRegNode 4 (mkNode 4 2 8 9 10 11 7) [4; 9; 8; 11; 10] true)) = CNodeUpdateNotAllowed /\
-  exists_throughout addr true 5 2 4 [TRegNode 4 (mkNode 4 1 8 9 10 11 7) [4; 9; 8; 11; 10] true]
+              TRegNode 4 (mkNode 4 1 8 9 10 11 2 8 []) [4; 9; 8; 11; 10] true; TEpoch 3] in
+  fst (step addr true 5 2 (run addr true 5 2 pre st0) (TRegNode 4 (mkNode 4 1 8 9 10 11 7 8 []) [4; 9; 8; 11; 10] true)) = COk /\
+  fst (step addr true 5 2 (run addr true 5 2 pre st0) (TRegNode 4 (mkNode 4 2 8 9 10 11 7 8 []) [4; 9; 8; 11; 10] true)) = CNodeUpdateNotAllowed /\
+  exists_throughout addr true 5 2 4 [TRegNode 4 (mkNode 4 1 8 9 10 11 7 8 []) [4; 9; 8; 11; 10] true]
                     (run addr true 5 2 pre st0).
 Proof.
   cbn zeta. split; [vm_compute; reflexivity|]. split; [vm_compute; reflexivity|].
